@@ -51,6 +51,7 @@ def run(prog: Program, res: Result) -> None:
     packaging.check_sign_parity(prog, res, P)
     packaging.check_packaging(prog, res, P)
     chain.check_solve(prog, res, P)
+    chain.check_solve_returns_objective(prog, res, P)
     chain.check_initial_solution(prog, res, P)
     # calculate_fitness is a function of (cost, direction) only
     cf = prog.func(f"{PKG}.helpers.calculate_fitness")
@@ -104,6 +105,10 @@ _ANCHOR = "        leader_position = np.array(self._best_agent.position)\n"
 _REFB = ("        def refine_best_solution(a: Agent, tt: TaskType) -> Agent:\n            if tt == TaskType.MIN:\n                return a\n"
          "            # return the agent with the position multiplied by -1\n            return a.model_copy(update={\"cost\": -a.cost})")
 VARIANTS = [
+    V("solve-replaces-nonfinite", "pyvolutionary/models.py", "        return self.objective_function(solution)",
+      "        value = self.objective_function(solution)\n        if not isinstance(value, list) and not np.isfinite(value):\n            return float(np.finfo(float).max)\n        return value", "C02.chain.solve-returns"),
+    V("twin-solve-through-local", "pyvolutionary/models.py", "        return self.objective_function(solution)",
+      "        value = self.objective_function(solution)\n        return value", None),
     V("sign-slip-in-fcn", _A, "isinstance(value, list) else -value", "isinstance(value, list) else value", "C02.SGN-fcn"),
     V("sign-slip-list-branch-only", _A, "return [-v for v in value] if isinstance", "return [v for v in value] if isinstance", "C02.SGN-fcn"),
     V("restore-sign-in-population-only", _M, _REFB,
